@@ -24,6 +24,7 @@ from vp import hooks
 FLAVOURS = {"asyncio": asyncio, "trio": trio, "threading": threading}
 MAIN_GATES = ("mr.launch.begin", "mr.launch.created", "mr.launched", "mr.running.set", "mr.unq.begin", "mr.reg.direct", "mr.unq.cleared", "mr.unq.end")
 SUB_GATES = ("mr.reg.miss", "mr.reg.queue", "mr.reg.direct")
+CLOSE_GATES = ("mr.aclose.begin", "mr.aclose.end", "mr.running.clear")
 STEP_TIMEOUT = 5.0
 
 
@@ -34,6 +35,8 @@ def classify(exc):
         return "assertion"
     if isinstance(exc, RuntimeError) and "unknown runner" in str(exc):
         return "unknown_runner"
+    if isinstance(exc, RuntimeError) and "Event loop is closed" in str(exc):
+        return "loop_closed"
     return "%s:%s" % (type(exc).__name__, str(exc)[:80])
 
 
@@ -80,7 +83,8 @@ def run_job(job):
                 stop.wait(20.0)
         return payload
 
-    tags = {"main": MAIN_GATES}
+    closing = bool(job.get("close"))
+    tags = {"main": CLOSE_GATES if closing else MAIN_GATES}
     for s in range(1, len(flav) + 1):
         tags["s%d" % s] = SUB_GATES
     gate = hooks.gate_on(tags)
@@ -114,9 +118,32 @@ def run_job(job):
 
     steps = []
     stuck = None
+    fail_now = threading.Event()
+    if closing:
+        # Closing.tla: the runtime is brought up undisturbed (main is gated at the closing hooks
+        # only) with one thread payload that fails when the schedule says "fail"
+        class Boom(Exception):
+            pass
+
+        def failing():
+            fail_now.wait(20.0)
+            if not stop.is_set() or fail_now.is_set():
+                raise Boom("scheduled failure")
+
+        runtime.adopt(failing, flavour=threading)
+        t = threading.Thread(target=main_thread, daemon=True, name="main")
+        threads["main"] = t
+        t.start()
+        if not runtime.running.wait(5.0):
+            stuck = {"who": "startup", "after": 0}
+        time.sleep(0.03)
     for who in job["sched"]:
-        tag = "main" if who == "main" else "s%d" % who
-        if tag not in threads:
+        if stuck:
+            break
+        tag = "main" if who in ("main", "fail") else "s%d" % who
+        if who == "fail":
+            fail_now.set()
+        elif tag not in threads:
             t = threading.Thread(target=main_thread if who == "main" else sub_thread, args=() if who == "main" else (who,), daemon=True, name=tag)
             threads[tag] = t
             t.start()
@@ -159,6 +186,7 @@ def run_job(job):
            "accept_running": accept_running, "main_end": dict(main_end)}
     # tear down
     stop.set()
+    fail_now.set()
     if "main" in threads and threads["main"].is_alive():
         def down():
             try:
